@@ -10,17 +10,18 @@ from mc import cal, core, draw, drawcases as dc, timegrid
 from mc.core import Acc, Hang, horizon
 
 ID = "C18"
-ZONES = ("America/New_York", "Asia/Kolkata", "Australia/Lord_Howe", "Pacific/Chatham")
+ZONES = ("America/New_York", "Asia/Kolkata", "Australia/Lord_Howe", "Pacific/Chatham", "Europe/Dublin", "America/St_Johns")
 RULE = ("E-INPUT x configurations: calendar operations (7 units x floor/ceil/round/offset/range) on every day of 2020-2021 x 2 "
-        "times of day and on every minute 00:00-04:59 of the five 2021 DST transition dates of the zones, on every month boundary 1900-2100 (day/week/month/year units); TimeScale mapping / "
+        "times of day and on every minute 00:00-04:59 of the seven 2021 DST transition dates of the zones, on every month boundary 1900-2100 (day/week/month/year units); TimeScale mapping / "
         "invert for instant pairs, ticks(m) and nice(m) over start instants x span ladder x counts, date-typed timeline items at every month boundary 1900-2100, and whole SVG/TikZ exports "
-        "of datetime datasets - each executed under UTC and under America/New_York, Asia/Kolkata, Australia/Lord_Howe and "
-        "Pacific/Chatham (process TZ switched with tzset), outputs compared byte for byte with the UTC run. "
+        "of datetime datasets - each executed under UTC and under America/New_York, Asia/Kolkata, Australia/Lord_Howe, "
+        "Pacific/Chatham, Europe/Dublin and America/St_Johns (process TZ switched with tzset), outputs compared byte for byte with the UTC run. "
         "Non-trivial: cases whose instants fall inside a DST gap/overlap of some zone, or straddle a transition.")
 ASSUMPTIONS = ["switching TZ with time.tzset() inside a worker is equivalent to starting the process with that TZ (libc localtime/mktime)",
                "tzdata of the image defines the zones"]
 REQUIRED_COUNTERS = ("cases", "zone_runs", "dst_window_cases")
-DST_DAYS = (datetime(2021, 3, 14), datetime(2021, 11, 7), datetime(2021, 4, 4), datetime(2021, 10, 3), datetime(2021, 9, 26))
+DST_DAYS = (datetime(2021, 3, 14), datetime(2021, 11, 7), datetime(2021, 4, 4), datetime(2021, 10, 3), datetime(2021, 9, 26),
+            datetime(2021, 3, 28), datetime(2021, 10, 31))
 UNITS = cal.UNITS
 KINDS = ["cal", "map", "ticks", "nice", "dateitems", "export"]
 
